@@ -23,6 +23,8 @@ LABEL_MENU = {
     "single": lambda T, K: [0] * (T - 1) + [K - 1],                                       # one singleton
     "one": lambda T, K: [0] * T,
     "inter": lambda T, K: [i % K for i in range(T)],
+    # -1 = "point not labelled" (documented): such points belong to no cluster
+    "unl": lambda T, K: [-1 if i % 3 == 0 else (i % K) for i in range(T)],
 }
 
 
@@ -56,7 +58,7 @@ def owned_after(op, before, after):
 
 def ops_alphabet():
     ops = [("assign", name) for name in LABEL_MENU]
-    ops += [("assign_direct", name) for name in ("bal", "single", "inter")]
+    ops += [("assign_direct", name) for name in ("bal", "single", "inter", "unl")]
     ops += [("deep_copy",), ("shallow_copy",), ("stats",), ("opt",), ("relabel",),
             ("repop", "first"), ("repop", "last")]
     return ops
